@@ -116,19 +116,19 @@ theorem C17_cap_authz (s s' : State) (tx : Tx) (hc : CapInv s) (hw : NoWasms tx.
     app before the repair): the operator executes its own MsgEditValidator through authz — no grant is needed when the inner
     signer is the grantee — and sets a 100% commission. -/
 theorem C17_counterexample_authz_self_exec_before_fix :
-    ∃ s', deliver .topOnly {} { evmExt := false, sigOk := true, msgs := [.exec 1 [.exec 1 [.comm 1 100]]] } = some s' ∧
-      (1, 100) ∈ s'.commission := by
+    ∃ s', deliver .topOnly {} { evmExt := false, sigOk := true, msgs := [.exec 1 [.exec 1 [.comm 1 1000000000000000000]]] } = some s' ∧
+      (1, 1000000000000000000) ∈ s'.commission := by
   exact ⟨_, rfl, by decide⟩
 
 /-- the same tx is refused by the repaired decorator -/
 theorem C17_authz_self_exec_refused_after_fix :
-    deliver .throughExec {} { evmExt := false, sigOk := true, msgs := [.exec 1 [.exec 1 [.comm 1 100]]] } = none := by decide
+    deliver .throughExec {} { evmExt := false, sigOk := true, msgs := [.exec 1 [.exec 1 [.comm 1 1000000000000000000]]] } = none := by decide
 
 /-- **Counterexample that remains (known finding C17-wasm-stargate)**: a contract that is a validator operator dispatches its own
     staking message; the wasm message handler routes it without any ante handler, so the cap is not enforced. -/
 theorem C17_counterexample_wasm_dispatch :
-    ∃ s', deliver .throughExec {} { evmExt := false, sigOk := true, msgs := [.wasm 2 3 [.comm 3 100]] } = some s' ∧
-      (3, 100) ∈ s'.commission := by
+    ∃ s', deliver .throughExec {} { evmExt := false, sigOk := true, msgs := [.wasm 2 3 [.comm 3 1000000000000000000]] } = some s' ∧
+      (3, 1000000000000000000) ∈ s'.commission := by
   exact ⟨_, rfl, by decide⟩
 
 /-! ### T1 (regenerated from app/ante/commission.go and app/ante.go on every run) -/
